@@ -104,6 +104,30 @@ def gen_echo_probe(rng, tag, writer):
             'ops': [{'cfg': 0, 'set': k % 2, 'kw': {}, 'fresh': False} for k in range(4)]}
 
 
+def gen_class_order_probe(rng, tag, writer):
+    """Spans and captions that name three style classes whose rules contradict each other: the order in which
+    they are merged is part of the output and must be the same under every hash seed."""
+    names = rng.sample(['ka', 'kb', 'kc', 'Strong', 'emph', 'x1', 'zz9', 'q'], 3)
+    flags = [{'italics': True, 'bold': False}, {'italics': False, 'bold': True, 'underline': True},
+             {'underline': False, 'color': 'red'}]
+    rng.shuffle(flags)
+    styles = {n: dict(f) for n, f in zip(names, flags)}
+    caps = []
+    for k in range(3):
+        order = rng.sample(names, 3)
+        st = {'classes': order, 'class': ' '.join(order)}
+        nodes = [['s', True, dict(st)], ['t', f'{tag}.{k} classes'], ['s', False, dict(st)], ['b'], ['t', 'plain']]
+        caps.append({'start': (k + 1) * 2000000, 'end': (k + 1) * 2000000 + 1500000, 'nodes': nodes,
+                     'style': dict(st) if k == 1 else None, 'layout': None})
+    spec = {'langs': [{'lang': 'en-US', 'layout': None, 'captions': caps}], 'styles': styles, 'layout': None}
+    while True:
+        cfg = gen_writer_cfg(rng)
+        if cfg['writer'] == writer:
+            break
+    return {'kind': 'history', 'sets': [spec], 'cfgs': [cfg],
+            'ops': [{'cfg': 0, 'set': 0, 'kw': {}, 'fresh': True}, {'cfg': 0, 'set': 0, 'kw': {}, 'fresh': False}]}
+
+
 def gen_history(rng, tag):
     nsets = rng.randrange(2, 5)
     sets = []
@@ -277,6 +301,9 @@ def cases(ctx):
         if writer != 'SCCWriter':
             # in every shard: the state a shard process has accumulated differs from shard to shard
             yield gen_level_probe(rng, f'L{ctx.shard}.{k}', writer)
+    for k, writer in enumerate(ALL_WRITERS):
+        if writer != 'SCCWriter':
+            yield gen_class_order_probe(rng, f'K{ctx.shard}.{k}', writer)
     for k, writer in enumerate(ALL_WRITERS):
         for rep in range(2):
             yield gen_echo_probe(rng, f'E{ctx.shard}.{k}.{rep}', writer)
